@@ -2,7 +2,7 @@
 import copy
 
 from harness import grammar, render, tlc
-from harness.common import CANARY_BASE, Report, import_hpl, rng, split_canaries, tier
+from harness.common import CANARY_BASE, keep, Report, import_hpl, rng, split_canaries, tier
 from harness.checks.c17 import schema, tok
 from harness.drive import call_parser, exc_name
 from harness.project import project
@@ -23,6 +23,8 @@ def run(replay=None):
         toks, _ = render.substitute(s, lits=grammar.STD_LITS)
         for mode in ((0,) if not thorough else (0, 2)):
             text = render.layout(toks, mode)
+            if not keep(text) and not keep(' '.join(toks)):
+                continue
             o, p = call_parser('property', text)
             ev = {'id': len(events) + 1, 'out': o, 'prop': {'cls': 'None'}, 'schema': scj, 'check': 'na'}
             if o == 'ast':
